@@ -374,28 +374,34 @@ def run_scenario(ctx, layout, refs_layout, opname, fsync=False, only_snapshot=No
                  labels=("snapshot", "op:" + opname, "layout:" + layout + "/" + refs_layout) + (("intermediate",) if intermediate else ()),
                  sample=dict(scenario=f"{layout}/{refs_layout}/{opname}", snapshot=k, of=len(pol.snaps), crash_before=s["next"]) if intermediate and k == 2 else None)
         if fsync and s["unsynced"]:
-            # power loss: each file written since its last fsync individually (and all together) emptied / removed
-            variants = [[u] for u in s["unsynced"]] + ([s["unsynced"]] if len(s["unsynced"]) > 1 else [])
+            # power loss: every file with unsynced data individually (and all together) loses what was written
+            # since its last fsync: cut back to the synced size, or - never synced - emptied / absent
+            uns = s["unsynced"]
+            variants = [[u] for u in uns] + ([uns] if len(uns) > 1 else [])
             for vi, files in enumerate(variants):
-                for mode in ("empty", "absent"):
+                modes = ("synced-prefix",) if all(sz is not None for _, sz in files) else ("empty", "absent")
+                for mode in modes:
                     vdir = os.path.join(work, "variant")
                     shutil.rmtree(vdir, ignore_errors=True)
                     shutil.copytree(s["path"], vdir, symlinks=True)
                     touched = False
-                    for u in files:
+                    for u, ssize in files:
                         rel = os.path.relpath(u, repo)
                         p = os.path.join(vdir, rel)
                         if os.path.isfile(p):
                             touched = True
-                            if mode == "empty":
+                            if ssize is not None:
+                                with open(p, "r+b") as fh:
+                                    fh.truncate(ssize)
+                            elif mode == "empty":
                                 open(p, "wb").close()
                             else:
                                 os.unlink(p)
                     if not touched:
                         continue
-                    vcase = dict(case, powerloss=dict(files=[os.path.relpath(u, repo) for u in files], mode=mode))
+                    vcase = dict(case, powerloss=dict(files=[(os.path.relpath(u, repo), sz) for u, sz in files], mode=mode))
                     judge_snapshot(ctx, vdir, pre, post, pre_closure, vcase, check)
-                    ctx.case(h64("c9pl", layout, refs_layout, opname, s["state"], vi, mode), nontrivial=True, labels=("power-loss-variant", "op:" + opname))
+                    ctx.case(h64("c9pl", layout, refs_layout, opname, s["state"], vi, mode), nontrivial=True, labels=("power-loss-variant", "power-loss:" + mode, "op:" + opname))
     if pol.truncated:
         ctx.label("snapshots-truncated")
     shutil.rmtree(work, ignore_errors=True)
